@@ -170,6 +170,23 @@ def main():
                 onp.all(make_vjp(fun, 1)(p, a, q, b, scale=s)[0](1.0) == ga),
                 onp.all(make_jvp(fun, 1)(p, a, q, b, scale=s)(onp.ones_like(a))[1] == onp.sum(ga)),
             ]
+            # negative positions count from the end like any Python index (a refusal is loud, hence acceptable;
+            # a silently different selection is not)
+            def neg(thunk):
+                try:
+                    return bool(thunk())
+                except Exception:
+                    return True
+            checks += [
+                neg(lambda: onp.all(grad(fun, -1)(p, a, q, b, scale=s, extra=5.0) == gb)),
+                neg(lambda: onp.all(grad(fun, -3)(p, a, q, b, scale=s) == ga)),
+                neg(lambda: all(onp.all(u == w) for u, w in zip(grad(fun, (-1, 1))(p, a, q, b, scale=s), (gb, ga)))),
+                neg(lambda: all(onp.all(u == w) for u, w in zip(grad(fun, [-3, -1])(p, a, q, b, scale=s), (ga, gb)))),
+                neg(lambda: onp.all(value_and_grad(fun, -1)(p, a, q, b, scale=s)[1] == gb)),
+                neg(lambda: onp.all(jacobian(fun, -3)(p, a, q, b, scale=s) == ga)),
+                neg(lambda: onp.all(make_vjp(fun, -1)(p, a, q, b, scale=s)[0](1.0) == gb)),
+                neg(lambda: onp.all(make_jvp(fun, -3)(p, a, q, b, scale=s)(onp.ones_like(a))[1] == onp.sum(ga))),
+            ]
             if not all(bool(c) for c in checks):
                 out["oracle_bad"].append({"oracle": "argnum-algebra", "shape": list(sh), "checks": [bool(c) for c in checks],
                                           "site": {"oracle": "argnum-algebra"}})
